@@ -27,7 +27,8 @@ PARTIAL = ['C02_parse_unparse_partial / C02_items_simulation_partial / C02_white
            'specials); all documents of that grammar, all contexts.',
            'C02_parse_unparse2_partial / C02_items_simulation2_partial / C02_whitespace_irrelevant2_partial / '
            'C02_tree_whitespace_irrelevant2_partial: the same for the EXTENDED grammar of coq/Doc/DocGrammar2.v = the core '
-           'grammar plus (e1) environments \\begin{name} args body \\end{name} (known to the context or covered by its '
+           'grammar with PRECISE text characters (a character is text when no specials sequence of the context matches at it, so '
+           'a-b / don\'t / Hi! are text under the default context) plus (e1) environments \\begin{name} args body \\end{name} (known to the context or covered by its '
            'unknown-environment fallback, mandatory brace arguments, body in math mode when declared so, whitespace allowed '
            'between \\begin / \\end and the brace), (e3) the specials sequences of the context (longest match, with arguments if '
            'declared), (e4) arguments per slot of the declared signature: braced group with whitespace in front where the '
